@@ -431,6 +431,80 @@ def M5(ctx):
                     site_str(prog, fk, (other or cmps or [(0, None)])[0][0]))
 
 
+def M6(ctx):
+    """Closed list of pruning reasons in match_load_to_stores: a candidate store i is dropped because of a modification-order-later
+    store j only if (a) j has been seen by the current causality, (b) i was seen before the thread's last yield, or (c) the load and
+    both stores are SeqCst.  With none of the three holding, the inner loop just continues with the next j."""
+    prog = ctx.prog
+    fk = ST + "match_load_to_stores"
+    fn = need_fn(ctx, "M6", fk)
+    if fn is None:
+        return
+    body = fn.body
+    inst = prog.ident(fk)
+    nexts = [b for (b, t, c) in prog.sites(inst) if callee_path(t) == "std::iter::Iterator::next"]
+    dom = body.dominators()
+    if len(nexts) != 2:
+        ctx.missing("M6", fk, "expected the two nested candidate loops (found %d iterator steps)" % len(nexts))
+        return
+    outer, inner = sorted(nexts, key=lambda n: len(dom[n]))
+    lts = []
+    for b in range(body.n):
+        t = body.term(b)
+        if t["k"] == "switch" and _is_mo_lt(prog, body.expr_of_operand(t["op"])):
+            lts.append((b, t))
+    if len(lts) != 1:
+        ctx.missing("M6", fk, "the `mo_i < mo_j` test was not found exactly once")
+        return
+    b, t = lts[0]
+    tgt = list(switch_targets_for(t, True))[0]
+    def which(e):
+        """'i' / 'j': does a Store field expression index with the outer or the inner loop variable?"""
+        for x in subexprs(e):
+            if x[0] == "call" and x[1] == "std::iter::Iterator::next" and len(x) > 3:
+                return "i" if x[3] == outer else ("j" if x[3] == inner else None)
+        return None
+
+    def sc_assume(load_sc, i_sc, j_sc):
+        def pred(e):
+            if is_field(e, "rt::atomic::Store", "seq_cst"):
+                w = which(e)
+                return i_sc if w == "i" else (j_sc if w == "j" else None)
+            return None
+        return assume_all(assume_scenario(prog, {"rt::atomic::FirstSeen::is_seen_by_current": False,
+                                                 "rt::atomic::FirstSeen::is_seen_before_yield": False,
+                                                 "rt::atomic::is_seq_cst": load_sc}), assume_expr(pred))
+    # reason (c) is the conjunction load-is-SeqCst && store_i.seq_cst && store_j.seq_cst: with (a), (b) false, every one of the
+    # seven assignments falsifying the conjunction must leave the candidate alone
+    reached = set()
+    for load_sc in (False, True):
+        for i_sc in (False, True):
+            for j_sc in (False, True):
+                if load_sc and i_sc and j_sc:
+                    continue
+                r_, _ = PEval(body, sc_assume(load_sc, i_sc, j_sc)).run(start=tgt, stop_blocks={outer, inner})
+                if outer in r_:
+                    reached.add(outer)
+                if inner in r_:
+                    reached.add(inner)
+    # each single reason alone must be able to prune (the three documented reasons are all present)
+    reasons = {}
+    for nm, table in (("seen-by-current", {"rt::atomic::FirstSeen::is_seen_by_current": True}),
+                      ("seen-before-yield", {"rt::atomic::FirstSeen::is_seen_by_current": False, "rt::atomic::FirstSeen::is_seen_before_yield": True}),
+                      ("seq-cst", {"rt::atomic::FirstSeen::is_seen_by_current": False, "rt::atomic::FirstSeen::is_seen_before_yield": False,
+                                   "rt::atomic::is_seq_cst": True})):
+        a = assume_all(assume_scenario(prog, table), assume_expr(lambda e: True if is_field(e, "rt::atomic::Store", "seq_cst") else None))
+        r2, _ = PEval(body, a).run(start=tgt, stop_blocks={outer, inner})
+        reasons[nm] = outer in r2
+    if outer not in reached and inner in reached and all(reasons.values()):
+        ctx.ok("M6", fk, "a candidate is pruned only for: newer store already seen / seen before the last yield / SeqCst load of SeqCst stores",
+               [site_str(prog, fk, b)])
+    else:
+        ctx.bad("M6", fk, "candidate selection prunes a store for a reason outside the documented three (prunes with none holding: %s; "
+                "documented reasons still effective: %s): allowed stale reads are no longer offered / forbidden ones are" %
+                (outer in reached, reasons), site_str(prog, fk, b))
+
+
 M3_ALLOWED = {
     ("rt::atomic::Store", "modification_order"): {ST + "store", ST + "apply_load_coherence", "<rt::atomic::Store as std::default::Default>::default"},
     ("rt::atomic::Store", "sync"): {ST + "store", ST + "load", ST + "rmw", "rt::atomic::fence_acq", "<rt::atomic::Store as std::default::Default>::default"},
